@@ -339,3 +339,600 @@ Proof.
   - assumption.
   - destruct (nth_error (wraps ms) k); intros [].
 Qed.
+
+Lemma host_cond_within m off c :
+  (0 <=? off) && (0 <=? c) && ((off + c) * mdt m <=? msize m) = true -> dt_ok (mdt m) ->
+  within m (c * mdt m) (off * mdt m).
+Proof.
+  intros Cond D. apply andb_true_iff in Cond as [Cond C3]. apply andb_true_iff in Cond as [C1 C2].
+  apply Z.leb_le in C1, C2, C3. unfold within, dt_ok in *. repeat split; nia.
+Qed.
+
+Lemma good_OCopyToH ms ss a cnt off : wf ms -> Rel ms ss -> small cnt -> small off ->
+  good ms ss (OCopyToH a cnt off).
+Proof.
+  intros Hwf HR Hc Hoff.
+  pose proof (spec_handle ms ss a HR) as EH.
+  destruct (geth (hs ms) a) as [m |] eqn:Em; cbn [option_map] in EH.
+  - destruct (wf_get _ _ _ Hwf Em) as (Hm & Hmm).
+    pose proof (host_copy_args_char m cnt off Hmm Hc Hoff) as Ec. cbv zeta in Ec.
+    set (c := if cnt =? -1 then m_len m else cnt) in *.
+    destruct ((0 <=? off) && (0 <=? c) && ((off + c) * mdt m <=? msize m)) eqn:Cond.
+    + pose proof (host_cond_within m off c Cond (proj2 (proj2 (proj2 Hmm)))) as W.
+      apply (good_intro _ _ _ ms ss (OKB (rd (getbuf ms (mbuf m)) (moff m + off * mdt m) (c * mdt m)))); auto.
+      * apply (step_ret _ _ (PRead m (c * mdt m) (off * mdt m))).
+        -- cbn [frontend]. rewrite Em. unfold memory_copyToH. rewrite Ec. reflexivity.
+        -- cbn [exec]. rewrite do_read_ok by assumption. reflexivity.
+      * cbn [s_step]. rewrite EH. unfold erange, copy_count, elems. cbn [m2v vb vlo vlen vdt].
+        fold (m_len m). fold c. rewrite Cond. unfold read.
+        destruct HR as [R1 R2 R3 R4]. destruct Hm as (M1 & M2 & M3 & M4 & M5). destruct W as (W1 & W2 & W3).
+        rewrite (rd_map _ (smap ss (mbuf m))); auto; lia.
+    + apply (good_intro _ _ _ ms ss ERR); auto.
+      * apply step_throw. cbn [frontend]. rewrite Em. unfold memory_copyToH. rewrite Ec. reflexivity.
+      * cbn [s_step]. rewrite EH. unfold erange, copy_count, elems. cbn [m2v vb vlo vlen vdt].
+        fold (m_len m). fold c. rewrite Cond. reflexivity.
+  - apply (good_intro _ _ _ ms ss ERR); auto.
+    + apply step_throw. cbn [frontend]. rewrite Em. reflexivity.
+    + cbn [s_step]. rewrite EH. reflexivity.
+Qed.
+
+Lemma good_OCopyFromH ms ss a cnt off seed : wf ms -> Rel ms ss -> small cnt -> small off ->
+  good ms ss (OCopyFromH a cnt off seed).
+Proof.
+  intros Hwf HR Hc Hoff.
+  pose proof (spec_handle ms ss a HR) as EH.
+  destruct (geth (hs ms) a) as [m |] eqn:Em; cbn [option_map] in EH.
+  - destruct (wf_get _ _ _ Hwf Em) as (Hm & Hmm).
+    pose proof (host_copy_args_char m cnt off Hmm Hc Hoff) as Ec. cbv zeta in Ec.
+    set (c := if cnt =? -1 then m_len m else cnt) in *.
+    destruct ((0 <=? off) && (0 <=? c) && ((off + c) * mdt m <=? msize m)) eqn:Cond.
+    + pose proof (host_cond_within m off c Cond (proj2 (proj2 (proj2 Hmm)))) as W.
+      pose proof W as (W1 & W2 & W3). pose proof Hm as (M1 & M2 & M3 & M4 & M5).
+      set (data := patl seed (c * mdt m)).
+      assert (Zd : zlen data = c * mdt m) by (apply zlen_patl; assumption).
+      set (start := moff m + off * mdt m).
+      apply (good_intro _ _ _ (setbuf ms (mbuf m) (wr (getbuf ms (mbuf m)) start data))
+               (with_map ss (upd (smap ss) (mbuf m) start (zlen data) (fun i => pat seed (i - start)))) OK).
+      * apply (step_ret _ _ (PWrite m (c * mdt m) (off * mdt m))).
+        -- cbn [frontend]. rewrite Em. unfold memory_copyFromH. rewrite Ec. reflexivity.
+        -- cbn [exec seed_of]. fold data. rewrite do_write_ok; [reflexivity | assumption |].
+           rewrite Zd. assumption.
+      * cbn [s_step]. rewrite EH. unfold erange, copy_count, elems. cbn [m2v vb vlo vlen vdt].
+        fold (m_len m). fold c. rewrite Cond. fold start. rewrite Zd. reflexivity.
+      * apply Rel_write; auto; try (unfold start; lia).
+        intros k Hk. unfold data. rewrite nth_patl by lia. f_equal. lia.
+      * apply wf_setbuf; auto. unfold zlen. rewrite wr_length; auto; unfold start; lia.
+      * intros [].
+    + apply (good_intro _ _ _ ms ss ERR); auto.
+      * apply step_throw. cbn [frontend]. rewrite Em. unfold memory_copyFromH. rewrite Ec. reflexivity.
+      * cbn [s_step]. rewrite EH. unfold erange, copy_count, elems. cbn [m2v vb vlo vlen vdt].
+        fold (m_len m). fold c. rewrite Cond. reflexivity.
+  - apply (good_intro _ _ _ ms ss ERR); auto.
+    + apply step_throw. cbn [frontend]. rewrite Em. reflexivity.
+    + cbn [s_step]. rewrite EH. reflexivity.
+Qed.
+
+Lemma copy_effect ms ss dst src n dB sB :
+  wf ms -> Rel ms ss -> wf_mem ms dst -> wf_mem ms src -> within dst n dB -> within src n sB ->
+  let ms' := setbuf ms (mbuf dst) (wr (getbuf ms (mbuf dst)) (moff dst + dB)
+                                      (rd (getbuf ms (mbuf src)) (moff src + sB) n)) in
+  do_copy fixed ms dst src n dB sB = Ret ms' /\ wf ms' /\
+  Rel ms' (with_map ss (upd (smap ss) (mbuf dst) (moff dst + dB) n
+                            (fun i => smap ss (mbuf src) (moff src + sB + (i - (moff dst + dB)))))).
+Proof.
+  intros Hwf HR Hd Hs Wd Ws ms'.
+  pose proof Hs as (S1 & S2 & S3 & S4 & S5). pose proof Ws as (V1 & V2 & V3).
+  pose proof Hd as (D1 & D2 & D3 & D4 & D5). pose proof Wd as (U1 & U2 & U3).
+  set (data := rd (getbuf ms (mbuf src)) (moff src + sB) n) in *.
+  assert (Zd : zlen data = n) by (apply zlen_rd; lia).
+  split; [apply do_copy_ok; assumption |]. split.
+  - apply wf_setbuf; auto. unfold zlen. rewrite wr_length; auto; lia.
+  - rewrite <- Zd at 1. apply Rel_write; auto; try lia.
+    intros k Hk. unfold data. replace k with (Z.of_nat (Z.to_nat k)) at 1 by lia.
+    rewrite nth_rd by lia. destruct HR as [R1 R2 R3 R4].
+    rewrite (R2 (mbuf src) S1) by lia. f_equal. lia.
+Qed.
+
+Lemma copy_cond_within dst src n doff soff :
+  (0 <=? n) && (0 <=? doff) && (0 <=? soff) && (doff * mdt dst + n <=? msize dst) && (soff * mdt src + n <=? msize src) = true ->
+  dt_ok (mdt dst) -> dt_ok (mdt src) ->
+  within dst n (doff * mdt dst) /\ within src n (soff * mdt src).
+Proof.
+  intros Cond D1 D2. repeat (apply andb_true_iff in Cond as [Cond ?]).
+  repeat match goal with H : (_ <=? _) = true |- _ => apply Z.leb_le in H end.
+  unfold within, dt_ok in *. repeat split; nia.
+Qed.
+
+Lemma good_OCopyFromM ms ss a b cnt doff soff : wf ms -> Rel ms ss -> small cnt -> small doff -> small soff ->
+  good ms ss (OCopyFromM a b cnt doff soff).
+Proof.
+  intros Hwf HR Hc Hd Hso.
+  pose proof (spec_handle ms ss a HR) as EHa. pose proof (spec_handle ms ss b HR) as EHb.
+  destruct (geth (hs ms) a) as [m |] eqn:Ea; cbn [option_map] in EHa.
+  - destruct (geth (hs ms) b) as [sm |] eqn:Eb; cbn [option_map] in EHb.
+    + destruct (wf_get _ _ _ Hwf Ea) as (Hm & Hmm). destruct (wf_get _ _ _ Hwf Eb) as (Hsm & Hsmm).
+      pose proof (memory_copyFromM_char m sm cnt doff soff Hmm Hsmm Hc Hd Hso) as Ec. cbv zeta in Ec.
+      set (n := (if cnt =? -1 then m_len m else cnt) * mdt m) in *.
+      destruct ((0 <=? n) && (0 <=? doff) && (0 <=? soff) && (doff * mdt m + n <=? msize m)
+                && (soff * mdt sm + n <=? msize sm)) eqn:Cond.
+      * destruct (copy_cond_within m sm n doff soff Cond (proj2 (proj2 (proj2 Hmm))) (proj2 (proj2 (proj2 Hsmm)))) as (Wd & Ws).
+        destruct (copy_effect ms ss m sm n (doff * mdt m) (soff * mdt sm) Hwf HR Hm Hsm Wd Ws) as (E1 & W1 & R1).
+        eapply good_intro; [| | exact R1 | exact W1 | ].
+        -- apply (step_ret _ _ (PCopy m sm n (doff * mdt m) (soff * mdt sm))).
+           ++ cbn [frontend]. rewrite Ea, Eb, Ec. reflexivity.
+           ++ cbn [exec]. rewrite E1. reflexivity.
+        -- cbn [s_step]. rewrite EHa, EHb. unfold copy_count, elems. cbn [m2v vb vlo vlen vdt].
+           fold (m_len m). fold n. rewrite Cond. reflexivity.
+        -- intros [].
+      * apply (good_intro _ _ _ ms ss ERR); auto.
+        -- apply step_throw. cbn [frontend]. rewrite Ea, Eb, Ec. reflexivity.
+        -- cbn [s_step]. rewrite EHa, EHb. unfold copy_count, elems. cbn [m2v vb vlo vlen vdt].
+           fold (m_len m). fold n. rewrite Cond. reflexivity.
+    + apply (good_intro _ _ _ ms ss ERR); auto.
+      * apply step_throw. cbn [frontend]. rewrite Ea, Eb. reflexivity.
+      * cbn [s_step]. rewrite EHa, EHb. reflexivity.
+  - apply (good_intro _ _ _ ms ss ERR); auto.
+    + apply step_throw. cbn [frontend]. rewrite Ea. destruct (geth (hs ms) b); reflexivity.
+    + cbn [s_step]. rewrite EHa. reflexivity.
+Qed.
+
+Lemma good_OCopyToM ms ss a b cnt doff soff : wf ms -> Rel ms ss -> small cnt -> small doff -> small soff ->
+  good ms ss (OCopyToM a b cnt doff soff).
+Proof.
+  intros Hwf HR Hc Hd Hso.
+  pose proof (spec_handle ms ss a HR) as EHa. pose proof (spec_handle ms ss b HR) as EHb.
+  destruct (geth (hs ms) a) as [m |] eqn:Ea; cbn [option_map] in EHa.
+  - destruct (geth (hs ms) b) as [dm |] eqn:Eb; cbn [option_map] in EHb.
+    + destruct (wf_get _ _ _ Hwf Ea) as (Hm & Hmm). destruct (wf_get _ _ _ Hwf Eb) as (Hdm & Hdmm).
+      pose proof (memory_copyToM_char m dm cnt doff soff Hmm Hdmm Hc Hd Hso) as Ec. cbv zeta in Ec.
+      set (n := (if cnt =? -1 then m_len m else cnt) * mdt m) in *.
+      destruct ((0 <=? n) && (0 <=? doff) && (0 <=? soff) && (doff * mdt dm + n <=? msize dm)
+                && (soff * mdt m + n <=? msize m)) eqn:Cond.
+      * destruct (copy_cond_within dm m n doff soff Cond (proj2 (proj2 (proj2 Hdmm))) (proj2 (proj2 (proj2 Hmm)))) as (Wd & Ws).
+        destruct (copy_effect ms ss dm m n (doff * mdt dm) (soff * mdt m) Hwf HR Hdm Hm Wd Ws) as (E1 & W1 & R1).
+        eapply good_intro; [| | exact R1 | exact W1 | ].
+        -- apply (step_ret _ _ (PCopy dm m n (doff * mdt dm) (soff * mdt m))).
+           ++ cbn [frontend]. rewrite Ea, Eb, Ec. reflexivity.
+           ++ cbn [exec]. rewrite E1. reflexivity.
+        -- cbn [s_step]. rewrite EHa, EHb. unfold copy_count, elems. cbn [m2v vb vlo vlen vdt].
+           fold (m_len m). fold n. rewrite Cond. reflexivity.
+        -- intros [].
+      * apply (good_intro _ _ _ ms ss ERR); auto.
+        -- apply step_throw. cbn [frontend]. rewrite Ea, Eb, Ec. reflexivity.
+        -- cbn [s_step]. rewrite EHa, EHb. unfold copy_count, elems. cbn [m2v vb vlo vlen vdt].
+           fold (m_len m). fold n. rewrite Cond. reflexivity.
+    + apply (good_intro _ _ _ ms ss ERR); auto.
+      * apply step_throw. cbn [frontend]. rewrite Ea, Eb. reflexivity.
+      * cbn [s_step]. rewrite EHa, EHb. reflexivity.
+  - apply (good_intro _ _ _ ms ss ERR); auto.
+    + apply step_throw. cbn [frontend]. rewrite Ea. destruct (geth (hs ms) b); reflexivity.
+    + cbn [s_step]. rewrite EHa. reflexivity.
+Qed.
+
+Lemma Rel_lens ms ss : Rel ms ss -> length (slens ss) = length (bufs ms).
+Proof. intros [R1 _ _ _]. rewrite R1, map_length. reflexivity. Qed.
+
+Lemma wf_mem_fresh ms content w n dt : zlen content = n -> 0 <= n -> dt_ok dt ->
+  wf_mem (alloc_state ms content w) (mkMem (length (bufs ms)) 0 n dt).
+Proof.
+  intros Hc Hn Hdt. unfold wf_mem. cbn [mbuf moff msize mdt]. rewrite getbuf_alloc_new.
+  cbn [alloc_state bufs]. rewrite app_length. cbn [length]. repeat split; try lia; apply Hdt.
+Qed.
+
+(* malloc without source / with a host source / wrapMemory *)
+Lemma alloc_plain ms ss d n dt w content g :
+  wf ms -> Rel ms ss -> 0 <= n < BMAX -> dt_ok dt -> zlen content = n ->
+  (forall k, 0 <= k < n -> nth (Z.to_nat k) content 0 = g k) ->
+  let ms' := sethandle (alloc_state ms content w) d (Some (mkMem (length (bufs ms)) 0 n dt)) in
+  wf ms' /\ Rel ms' (new_buffer ss d n dt w g).
+Proof.
+  intros Hwf HR Hn Hdt Hc Hg ms'. split.
+  - apply wf_sethandle; [apply wf_alloc; auto; lia |].
+    intros m E; inversion E; subst m. apply wf_mem_fresh; auto; lia.
+  - pose proof (Rel_sethandle _ _ d (Some (mkMem (length (bufs ms)) 0 n dt)) (Rel_alloc ms ss content n w g HR Hc Hg)) as H.
+    unfold new_buffer. unfold with_handle, alloc_spec, m2v in H. cbn [smap slens shs swraps option_map mbuf moff msize mdt] in H.
+    rewrite (Rel_lens ms ss HR) in *. exact H.
+Qed.
+
+(* malloc with a memory source / clone *)
+Lemma alloc_copy ms ss d n dt src :
+  wf ms -> Rel ms ss -> 0 <= n < BMAX -> dt_ok dt -> wf_mem ms src -> n <= msize src ->
+  let b := length (bufs ms) in
+  let fresh := mkMem b 0 n dt in
+  let s1 := alloc_state ms (repeat undef (Z.to_nat n)) false in
+  exists s2, do_copy fixed s1 fresh src n 0 0 = Ret s2 /\
+    wf (sethandle s2 d (Some fresh)) /\
+    Rel (sethandle s2 d (Some fresh)) (new_buffer ss d n dt false (fun i => smap ss (mbuf src) (moff src + i))).
+Proof.
+  intros Hwf HR Hn Hdt Hsrc Hle b fresh s1.
+  assert (Zc : zlen (repeat undef (Z.to_nat n)) = n) by (apply zlen_repeat; lia).
+  assert (W1 : wf s1) by (apply wf_alloc; auto; lia).
+  assert (R1 : Rel s1 (alloc_spec ss n false (fun _ => undef))).
+  { apply Rel_alloc; auto. intros k Hk. apply nth_repeat_lt. lia. }
+  assert (Hf : wf_mem s1 fresh) by (apply wf_mem_fresh; auto; lia).
+  pose proof Hsrc as (S1 & S2 & S3 & S4 & S5).
+  assert (Hs : wf_mem s1 src).
+  { apply (wf_mem_mono ms); auto.
+    - unfold s1; cbn [alloc_state bufs]. rewrite app_length. lia.
+    - intros; unfold s1; rewrite getbuf_alloc_old; auto. }
+  assert (Wd : within fresh n 0) by (unfold within, fresh; cbn [msize]; lia).
+  assert (Ws : within src n 0) by (unfold within; lia).
+  destruct (copy_effect s1 _ fresh src n 0 0 W1 R1 Hf Hs Wd Ws) as (E & W2 & R2).
+  eexists. split; [exact E |]. split.
+  - apply wf_sethandle; auto. intros m Em; inversion Em; subst m.
+    apply (wf_mem_mono s1); auto.
+    + cbn [setbuf bufs]. rewrite setnth_length. lia.
+    + intros. apply zlen_getbuf_setbuf. unfold zlen. rewrite wr_length; auto.
+      * unfold fresh; cbn [moff]. lia.
+      * unfold fresh; cbn [moff mbuf]. rewrite zlen_rd.
+        -- unfold s1, b. rewrite getbuf_alloc_new. lia.
+        -- lia.
+        -- lia.
+        -- unfold s1. rewrite getbuf_alloc_old by assumption. lia.
+  - match type of R2 with Rel ?s ?x => set (X := x) in *; set (s2 := s) in * end.
+    assert (R3 : Rel s2 (mkS (upd (smap ss) (length (slens ss)) 0 n (fun i => smap ss (mbuf src) (moff src + i)))
+                              (slens X) (shs X) (swraps X))).
+    { apply Rel_ext; auto. intros b' i. unfold X, alloc_spec, with_map, upd. cbn [smap slens shs swraps fresh mbuf moff].
+      unfold b. rewrite <- (Rel_lens ms ss HR).
+      destruct (Nat.eqb_spec b' (length (slens ss))) as [-> | Hne]; cbn [andb]; [| reflexivity].
+      replace (0 + 0) with 0 by lia.
+      destruct ((0 <=? i) && (i <? 0 + n)) eqn:Ci; [| reflexivity].
+      destruct (Nat.eqb_spec (mbuf src) (length (slens ss))) as [Eq | _]; cbn [andb].
+      - rewrite (Rel_lens ms ss HR) in Eq. lia.
+      - f_equal. lia. }
+    pose proof (Rel_sethandle _ _ d (Some fresh) R3) as H.
+    unfold new_buffer. unfold with_handle, m2v in H. unfold X, alloc_spec, with_map in H.
+    cbn [smap slens shs swraps option_map fresh mbuf moff msize mdt] in H.
+    unfold b in H. rewrite (Rel_lens ms ss HR) in *. exact H.
+Qed.
+
+Lemma small_prod n dt : small n -> dt_ok dt -> - (DTMAX * ARG) < n * dt < BMAX.
+Proof. intros Hn Hdt. pose proof (mul_small_bound _ _ Hdt Hn). consts_in. lia. Qed.
+
+Lemma good_alloc_plain ms ss o d n dt w i content g :
+  wf ms -> Rel ms ss -> 0 <= n < BMAX -> dt_ok dt -> slot_of o = d ->
+  frontend fixed ms o = Ret (PAlloc n dt w i) ->
+  (match i with IHost seed => content = patl seed n | INone => content = repeat undef (Z.to_nat n) | IMem _ _ _ _ => False end) ->
+  zlen content = n -> (forall k, 0 <= k < n -> nth (Z.to_nat k) content 0 = g k) ->
+  s_step ss o = (new_buffer ss d n dt w g, OK) ->
+  good ms ss o.
+Proof.
+  intros Hwf HR Hn Hdt Hd Ef Hi Hc Hg Es.
+  destruct (alloc_plain ms ss d n dt w content g Hwf HR Hn Hdt Hc Hg) as (W & R).
+  eapply good_intro; [| exact Es | exact R | exact W | intros []].
+  apply (step_ret _ _ _ _ Ef). cbn [exec]. rewrite Hd.
+  destruct i as [| seed |]; [subst content; reflexivity | subst content; reflexivity | destruct Hi].
+Qed.
+
+Lemma good_OMalloc ms ss d n dt : wf ms -> Rel ms ss -> small n -> dt_ok dt -> good ms ss (OMalloc d n dt).
+Proof.
+  intros Hwf HR Hn Hdt. pose proof (small_prod n dt Hn Hdt) as B.
+  assert (Ef : frontend fixed ms (OMalloc d n dt) =
+               if n =? 0 then Ret (PSetHandle None) else if n <? 0 then Throw else Ret (PAlloc (n * dt) dt false INone)).
+  { cbn [frontend]. rewrite device_malloc_bytes_char by assumption.
+    destruct (n =? 0); [reflexivity |]. destruct (n <? 0); reflexivity. }
+  destruct (Z.eqb_spec n 0) as [E0 | E0].
+  - apply (good_intro _ _ _ (sethandle ms d None) (with_handle ss d (option_map m2v None)) OK).
+    + apply (step_ret _ _ _ _ Ef). reflexivity.
+    + cbn [s_step]. destruct (Z.eqb_spec n 0); [reflexivity | lia].
+    + apply Rel_sethandle; assumption.
+    + apply wf_sethandle; auto. intros m E; discriminate.
+    + intros [].
+  - destruct (Z.ltb_spec n 0) as [Hneg | Hpos].
+    + apply (good_intro _ _ _ ms ss ERR); auto.
+      * apply step_throw. exact Ef.
+      * cbn [s_step]. destruct (Z.eqb_spec n 0); [lia |]. destruct (Z.ltb_spec n 0); [reflexivity | lia].
+    + assert (0 <= n * dt) by (unfold dt_ok in Hdt; nia).
+      apply (good_alloc_plain ms ss _ d (n * dt) dt false INone (repeat undef (Z.to_nat (n * dt))) (fun _ => undef)); auto.
+      * lia.
+      * apply zlen_repeat; lia.
+      * intros k Hk. apply nth_repeat_lt. lia.
+      * cbn [s_step]. destruct (Z.eqb_spec n 0); [lia |]. destruct (Z.ltb_spec n 0); [lia | reflexivity].
+Qed.
+
+Lemma good_OMallocH ms ss d n dt seed uhp : wf ms -> Rel ms ss -> small n -> dt_ok dt ->
+  good ms ss (OMallocH d n dt seed uhp).
+Proof.
+  intros Hwf HR Hn Hdt. pose proof (small_prod n dt Hn Hdt) as B.
+  assert (Ef : frontend fixed ms (OMallocH d n dt seed uhp) =
+               if n =? 0 then Ret (PSetHandle None) else if n <? 0 then Throw else Ret (PAlloc (n * dt) dt uhp (IHost seed))).
+  { cbn [frontend]. rewrite device_malloc_bytes_char by assumption.
+    destruct (n =? 0); [reflexivity |]. destruct (n <? 0); reflexivity. }
+  destruct (Z.eqb_spec n 0) as [E0 | E0].
+  - apply (good_intro _ _ _ (sethandle ms d None) (with_handle ss d (option_map m2v None)) OK).
+    + apply (step_ret _ _ _ _ Ef). reflexivity.
+    + cbn [s_step]. destruct (Z.eqb_spec n 0); [reflexivity | lia].
+    + apply Rel_sethandle; assumption.
+    + apply wf_sethandle; auto. intros m E; discriminate.
+    + intros [].
+  - destruct (Z.ltb_spec n 0) as [Hneg | Hpos].
+    + apply (good_intro _ _ _ ms ss ERR); auto.
+      * apply step_throw. exact Ef.
+      * cbn [s_step]. destruct (Z.eqb_spec n 0); [lia |]. destruct (Z.ltb_spec n 0); [reflexivity | lia].
+    + assert (0 <= n * dt) by (unfold dt_ok in Hdt; nia).
+      apply (good_alloc_plain ms ss _ d (n * dt) dt uhp (IHost seed) (patl seed (n * dt)) (pat seed)); auto.
+      * lia.
+      * apply zlen_patl; lia.
+      * intros k Hk. apply nth_patl. lia.
+      * cbn [s_step]. destruct (Z.eqb_spec n 0); [lia |]. destruct (Z.ltb_spec n 0); [lia | reflexivity].
+Qed.
+
+Lemma good_OWrap ms ss d n dt seed : wf ms -> Rel ms ss -> small n -> dt_ok dt -> good ms ss (OWrap d n dt seed).
+Proof.
+  intros Hwf HR Hn Hdt. pose proof (small_prod n dt Hn Hdt) as B.
+  assert (Ef : frontend fixed ms (OWrap d n dt seed) =
+               if n <? 0 then Throw else Ret (PAlloc (n * dt) dt true (IHost seed))).
+  { cbn [frontend]. apply device_wrap_char; assumption. }
+  destruct (Z.ltb_spec n 0) as [Hneg | Hpos].
+  - apply (good_intro _ _ _ ms ss ERR); auto.
+    + apply step_throw. exact Ef.
+    + cbn [s_step]. destruct (Z.ltb_spec n 0); [reflexivity | lia].
+  - assert (0 <= n * dt) by (unfold dt_ok in Hdt; nia).
+    apply (good_alloc_plain ms ss _ d (n * dt) dt true (IHost seed) (patl seed (n * dt)) (pat seed)); auto.
+    + lia.
+    + apply zlen_patl; lia.
+    + intros k Hk. apply nth_patl. lia.
+    + cbn [s_step]. destruct (Z.ltb_spec n 0); [lia | reflexivity].
+Qed.
+
+Lemma good_alloc_copy ms ss o d n dt src :
+  wf ms -> Rel ms ss -> 0 <= n < BMAX -> dt_ok dt -> slot_of o = d -> wf_mem ms src -> n <= msize src ->
+  frontend fixed ms o = Ret (PAlloc n dt false (IMem src n 0 0)) ->
+  s_step ss o = (new_buffer ss d n dt false (fun i => smap ss (mbuf src) (moff src + i)), OK) ->
+  good ms ss o.
+Proof.
+  intros Hwf HR Hn Hdt Hd Hsrc Hle Ef Es.
+  destruct (alloc_copy ms ss d n dt src Hwf HR Hn Hdt Hsrc Hle) as (s2 & E & W & R).
+  eapply good_intro; [| exact Es | exact R | exact W | intros []].
+  apply (step_ret _ _ _ _ Ef). cbn [exec]. rewrite Hd.
+  unfold alloc_state in E. rewrite E. reflexivity.
+Qed.
+
+Lemma good_OMallocM ms ss d n dt sidx : wf ms -> Rel ms ss -> small n -> dt_ok dt -> good ms ss (OMallocM d n dt sidx).
+Proof.
+  intros Hwf HR Hn Hdt. pose proof (small_prod n dt Hn Hdt) as B.
+  pose proof (spec_handle ms ss sidx HR) as EH.
+  assert (Ef : frontend fixed ms (OMallocM d n dt sidx) =
+               if n =? 0 then Ret (PSetHandle None) else if n <? 0 then Throw else
+               match geth (hs ms) sidx with
+               | None => Ret (PAlloc (n * dt) dt false INone)
+               | Some sm => if n * dt <=? msize sm then Ret (PAlloc (n * dt) dt false (IMem sm (n * dt) 0 0)) else Throw
+               end).
+  { cbn [frontend]. apply device_mallocM_char; auto. intros sm E. apply (wf_get _ _ _ Hwf E). }
+  destruct (Z.eqb_spec n 0) as [E0 | E0].
+  - apply (good_intro _ _ _ (sethandle ms d None) (with_handle ss d (option_map m2v None)) OK).
+    + apply (step_ret _ _ _ _ Ef). reflexivity.
+    + cbn [s_step]. destruct (Z.eqb_spec n 0); [reflexivity | lia].
+    + apply Rel_sethandle; assumption.
+    + apply wf_sethandle; auto. intros m E; discriminate.
+    + intros [].
+  - destruct (Z.ltb_spec n 0) as [Hneg | Hpos].
+    + apply (good_intro _ _ _ ms ss ERR); auto.
+      * apply step_throw. exact Ef.
+      * cbn [s_step]. destruct (Z.eqb_spec n 0); [lia |]. destruct (Z.ltb_spec n 0); [reflexivity | lia].
+    + assert (0 <= n * dt) by (unfold dt_ok in Hdt; nia).
+      destruct (geth (hs ms) sidx) as [sm |] eqn:Es; cbn [option_map] in EH.
+      * destruct (Z.leb_spec (n * dt) (msize sm)) as [Hle | Hgt].
+        -- destruct (wf_get _ _ _ Hwf Es) as (Hsm & _).
+           apply (good_alloc_copy ms ss _ d (n * dt) dt sm); auto; try lia.
+           cbn [s_step]. destruct (Z.eqb_spec n 0); [lia |]. destruct (Z.ltb_spec n 0); [lia |].
+           rewrite EH. cbn [m2v vlen vb vlo]. destruct (Z.leb_spec (n * dt) (msize sm)); [reflexivity | lia].
+        -- apply (good_intro _ _ _ ms ss ERR); auto.
+           ++ apply step_throw. exact Ef.
+           ++ cbn [s_step]. destruct (Z.eqb_spec n 0); [lia |]. destruct (Z.ltb_spec n 0); [lia |].
+              rewrite EH. cbn [m2v vlen vb vlo]. destruct (Z.leb_spec (n * dt) (msize sm)); [lia | reflexivity].
+      * apply (good_alloc_plain ms ss _ d (n * dt) dt false INone (repeat undef (Z.to_nat (n * dt))) (fun _ => undef)); auto.
+        -- lia.
+        -- apply zlen_repeat; lia.
+        -- intros k Hk. apply nth_repeat_lt. lia.
+        -- cbn [s_step]. destruct (Z.eqb_spec n 0); [lia |]. destruct (Z.ltb_spec n 0); [lia |].
+           rewrite EH. reflexivity.
+Qed.
+
+Lemma good_OClone ms ss d sidx : wf ms -> Rel ms ss -> good ms ss (OClone d sidx).
+Proof.
+  intros Hwf HR. pose proof (spec_handle ms ss sidx HR) as EH.
+  destruct (geth (hs ms) sidx) as [m |] eqn:Em; cbn [option_map] in EH.
+  - destruct (wf_get _ _ _ Hwf Em) as (Hm & Hmm).
+    assert (Ef : frontend fixed ms (OClone d sidx) =
+                 if msize m =? 0 then Throw else Ret (PAlloc (msize m) (mdt m) false (IMem m (msize m) 0 0))).
+    { cbn [frontend]. rewrite Em. apply memory_clone_char; assumption. }
+    destruct (Z.eqb_spec (msize m) 0) as [E0 | E0].
+    + apply (good_intro _ _ _ ms ss ERR); auto.
+      * apply step_throw. exact Ef.
+      * cbn [s_step]. rewrite EH. cbn [m2v vlen]. destruct (Z.eqb_spec (msize m) 0); [reflexivity | lia].
+    + destruct Hmm as (A1 & A2 & A3 & A4).
+      apply (good_alloc_copy ms ss _ d (msize m) (mdt m) m); auto; try lia.
+      cbn [s_step]. rewrite EH. cbn [m2v vlen vb vlo vdt]. destruct (Z.eqb_spec (msize m) 0); [lia | reflexivity].
+  - apply (good_intro _ _ _ ms ss ERR); auto.
+    + apply step_throw. cbn [frontend]. rewrite Em. reflexivity.
+    + cbn [s_step]. rewrite EH. reflexivity.
+Qed.
+
+(* ------------------------------------------------------------------ every operation *)
+Theorem step_good ms ss o : wf ms -> Rel ms ss -> op_ok o -> good ms ss o.
+Proof.
+  intros Hwf HR Hok. destruct o; cbn [op_ok] in Hok.
+  - apply good_OMalloc; tauto.
+  - apply good_OMallocH; tauto.
+  - apply good_OMallocM; tauto.
+  - apply good_OWrap; tauto.
+  - apply good_OSlice; tauto.
+  - apply good_OCast; tauto.
+  - apply good_OClone; tauto.
+  - apply good_OCopyFromH; tauto.
+  - apply good_OCopyToH; tauto.
+  - apply good_OCopyFromM; tauto.
+  - apply good_OCopyToM; tauto.
+  - apply good_OAssign; tauto.
+  - apply good_OReset; tauto.
+  - apply good_OSize; tauto.
+  - apply good_OHostRead; tauto.
+Qed.
+
+(* ------------------------------------------------------------------ part 5: histories *)
+Lemma wf_init : wf init.
+Proof.
+  split; [| split].
+  - intros i m H. unfold init, geth in H. cbn [hs] in H.
+    assert (nth i (repeat (@None mem) nslots) None = None).
+    { clear. generalize nslots. intros n. revert i. induction n; intros [| i]; cbn; auto. }
+    congruence.
+  - intros b. unfold getbuf, init; cbn. destruct b; reflexivity.
+  - intros b [].
+Qed.
+
+Lemma Rel_init : Rel init sinit.
+Proof.
+  constructor; cbn; auto.
+  intros b Hb. lia.
+Qed.
+
+Lemma run_refines_gen h : forall ms ss, wf ms -> Rel ms ss -> ops_ok h ->
+  run fixed ms h = s_run ss h /\ Forall (fun ob => ~ is_crash ob) (run fixed ms h).
+Proof.
+  induction h as [| o h IH]; intros ms ss Hwf HR Hok; cbn [run s_run].
+  - split; constructor.
+  - inversion Hok as [| ? ? Ho Hh]; subst.
+    destruct (step_good ms ss o Hwf HR Ho) as (E & R' & W' & NC).
+    destruct (IH _ _ W' R' Hh) as (E2 & F2).
+    split; [rewrite E, E2; reflexivity | constructor; assumption].
+Qed.
+
+
+Lemma wf_final h : forall ms ss, wf ms -> Rel ms ss -> ops_ok h -> wf (final fixed ms h).
+Proof.
+  induction h as [| o h IH]; intros ms ss Hwf HR Hok; cbn [final]; auto.
+  inversion Hok as [| ? ? Ho Hh]; subst.
+  destruct (step_good ms ss o Hwf HR Ho) as (E & R' & W' & NC). eapply IH; eauto.
+Qed.
+
+(* ------------------------------------------------------------------ rejected requests change nothing *)
+Lemma exec_not_err c s o p s' ob : exec c s o p = Ret (s', ob) -> ob <> ERR.
+Proof.
+  destruct p; cbn [exec]; intros E.
+  - inversion E; subst. destruct o; discriminate.
+  - inversion E; discriminate.
+  - destruct (do_read s m bytes off); cbn [bind] in E; inversion E; discriminate.
+  - destruct (do_write s m off _); cbn [bind] in E; inversion E; discriminate.
+  - destruct (do_copy c s dst src bytes doff soff); cbn [bind] in E; inversion E; discriminate.
+  - match type of E with (bind ?x _) = _ => destruct x end; cbn [bind] in E; inversion E; discriminate.
+  - inversion E; discriminate.
+  - inversion E; subst. destruct (nth_error (wraps s') k); discriminate.
+Qed.
+
+Lemma step_err_unchanged c s o s' : step c s o = (s', ERR) -> s' = s.
+Proof.
+  unfold step. destruct (frontend c s o) as [p | | k]; cbn [bind].
+  - destruct (exec c s o p) as [[s'' ob] | | k] eqn:E; intros H; inversion H; subst; auto.
+    exfalso. eapply exec_not_err; eauto.
+  - intros H; inversion H; reflexivity.
+  - intros H; inversion H.
+Qed.
+
+
+(* ------------------------------------------------------------------ accepted requests are in range *)
+Lemma ret_inj {A} (a b : A) : Ret a = Ret b -> a = b.
+Proof. intros H; inversion H; reflexivity. Qed.
+
+Theorem frontend_in_range s o p : wf s -> op_ok o -> frontend fixed s o = Ret p ->
+  plan_in_range (parent_of s o) p.
+Proof.
+  intros Hwf Hok E. destruct o; cbn [op_ok] in Hok; cbn [frontend parent_of] in *.
+  - (* OMalloc *) destruct Hok as (Hn & Hdt). pose proof (small_prod n dt Hn Hdt).
+    rewrite device_malloc_bytes_char in E by assumption.
+    destruct (Z.eqb_spec n 0); [apply ret_inj in E; subst p; exact I |].
+    destruct (Z.ltb_spec n 0); [discriminate |]. apply ret_inj in E; subst p. cbn. unfold dt_ok in Hdt. nia.
+  - (* OMallocH *) destruct Hok as (Hn & Hdt). pose proof (small_prod n dt Hn Hdt).
+    rewrite device_malloc_bytes_char in E by assumption.
+    destruct (Z.eqb_spec n 0); [apply ret_inj in E; subst p; exact I |].
+    destruct (Z.ltb_spec n 0); [discriminate |]. apply ret_inj in E; subst p. cbn. unfold dt_ok in Hdt. nia.
+  - (* OMallocM *) destruct Hok as (Hn & Hdt). pose proof (small_prod n dt Hn Hdt).
+    rewrite device_mallocM_char in E; auto; [| intros sm Es; apply (wf_get _ _ _ Hwf Es)].
+    destruct (Z.eqb_spec n 0); [apply ret_inj in E; subst p; exact I |].
+    destruct (Z.ltb_spec n 0); [discriminate |].
+    assert (0 <= n * dt) by (unfold dt_ok in Hdt; nia).
+    destruct (geth (hs s) s0) as [sm |]; [| apply ret_inj in E; subst p; cbn; lia].
+    destruct (Z.leb_spec (n * dt) (msize sm)); [| discriminate].
+    apply ret_inj in E; subst p. cbn. unfold within. lia.
+  - (* OWrap *) destruct Hok as (Hn & Hdt). rewrite device_wrap_char in E by assumption.
+    destruct (Z.ltb_spec n 0); [discriminate |]. apply ret_inj in E; subst p. cbn. unfold dt_ok in Hdt. nia.
+  - (* OSlice *) destruct Hok as (Hoff & Hcnt).
+    destruct (geth (hs s) s0) as [m |] eqn:Em; [| discriminate].
+    destruct (wf_get _ _ _ Hwf Em) as (Hm & Hmm).
+    rewrite memory_slice_char in E by assumption. cbv zeta in E.
+    destruct ((0 <=? off) && _ && _) eqn:Cond in E; [| discriminate].
+    cbn [bind] in E. apply ret_inj in E; subst p. cbn [plan_in_range].
+    apply andb_true_iff in Cond as [Cond C3]. apply andb_true_iff in Cond as [C1 C2].
+    apply Z.leb_le in C1, C2, C3. destruct Hmm as (A1 & A2 & A3 & A4). unfold dt_ok in A4.
+    unfold subview; cbn [mbuf moff msize]. repeat split; nia.
+  - (* OCast *)
+    destruct (geth (hs s) s0) as [m |] eqn:Em; [| discriminate].
+    destruct (wf_get _ _ _ Hwf Em) as (Hm & Hmm).
+    rewrite memory_cast_char in E by assumption. cbn [bind] in E. apply ret_inj in E; subst p.
+    cbn [plan_in_range]. destruct Hmm as (A1 & A2 & A3 & A4).
+    destruct (div_bounds (msize m) (mdt m)) as (L0 & L1 & L2); [unfold dt_ok in A4; lia | lia |].
+    unfold subview, m_len; cbn [mbuf moff msize]. repeat split; nia.
+  - (* OClone *)
+    destruct (geth (hs s) s0) as [m |] eqn:Em; [| discriminate].
+    destruct (wf_get _ _ _ Hwf Em) as (Hm & Hmm).
+    rewrite memory_clone_char in E by assumption.
+    destruct (Z.eqb_spec (msize m) 0); [discriminate |]. apply ret_inj in E; subst p.
+    destruct Hmm as (A1 & A2 & A3 & A4). cbn. unfold within. lia.
+  - (* OCopyFromH *) destruct Hok as (Hc & Hoff).
+    destruct (geth (hs s) a) as [m |] eqn:Em; [| discriminate].
+    destruct (wf_get _ _ _ Hwf Em) as (Hm & Hmm).
+    unfold memory_copyFromH in E. rewrite host_copy_args_char in E by assumption. cbv zeta in E.
+    destruct ((0 <=? off) && _ && _) eqn:Cond in E; [| discriminate].
+    cbn [bind fst snd] in E. apply ret_inj in E; subst p. cbn [plan_in_range].
+    apply host_cond_within; [assumption | apply Hmm].
+  - (* OCopyToH *) destruct Hok as (Hc & Hoff).
+    destruct (geth (hs s) a) as [m |] eqn:Em; [| discriminate].
+    destruct (wf_get _ _ _ Hwf Em) as (Hm & Hmm).
+    unfold memory_copyToH in E. rewrite host_copy_args_char in E by assumption. cbv zeta in E.
+    destruct ((0 <=? off) && _ && _) eqn:Cond in E; [| discriminate].
+    cbn [bind fst snd] in E. apply ret_inj in E; subst p. cbn [plan_in_range].
+    apply host_cond_within; [assumption | apply Hmm].
+  - (* OCopyFromM *) destruct Hok as (Hc & Hd & Hso).
+    destruct (geth (hs s) a) as [m |] eqn:Ea; [| destruct (geth (hs s) b); discriminate].
+    destruct (geth (hs s) b) as [sm |] eqn:Eb; [| discriminate].
+    destruct (wf_get _ _ _ Hwf Ea) as (Hm & Hmm). destruct (wf_get _ _ _ Hwf Eb) as (Hsm & Hsmm).
+    rewrite memory_copyFromM_char in E by assumption. cbv zeta in E.
+    destruct (_ && _ && _ && _ && _) eqn:Cond in E; [| discriminate].
+    apply ret_inj in E; subst p. cbn [plan_in_range].
+    apply copy_cond_within; [assumption | apply Hmm | apply Hsmm].
+  - (* OCopyToM *) destruct Hok as (Hc & Hd & Hso).
+    destruct (geth (hs s) a) as [m |] eqn:Ea; [| destruct (geth (hs s) b); discriminate].
+    destruct (geth (hs s) b) as [dm |] eqn:Eb; [| discriminate].
+    destruct (wf_get _ _ _ Hwf Ea) as (Hm & Hmm). destruct (wf_get _ _ _ Hwf Eb) as (Hdm & Hdmm).
+    rewrite memory_copyToM_char in E by assumption. cbv zeta in E.
+    destruct (_ && _ && _ && _ && _) eqn:Cond in E; [| discriminate].
+    apply ret_inj in E; subst p. cbn [plan_in_range].
+    apply copy_cond_within; [assumption | apply Hdmm | apply Hmm].
+  - (* OAssign *) apply ret_inj in E; subst p. cbn [plan_in_range].
+    destruct (geth (hs s) s0) as [m |] eqn:Em; [| exact I].
+    destruct (wf_get _ _ _ Hwf Em) as ((M1 & M2 & M3 & M4 & M5) & _). unfold subview. lia.
+  - apply ret_inj in E; subst p. exact I.
+  - apply ret_inj in E; subst p. exact I.
+  - apply ret_inj in E; subst p. exact I.
+Qed.
+
+(* every access of an in-range request lies inside its buffer: the backend does not fault *)
+Theorem in_range_in_buffer s m bytes off : wf_mem s m -> within m bytes off ->
+  0 <= moff m + off /\ moff m + off + bytes <= zlen (getbuf s (mbuf m)).
+Proof. intros (H1 & H2 & H3 & H4 & H5) (W1 & W2 & W3). lia. Qed.
+
+(* ------------------------------------------------------------------ uninitialized handles *)
+Theorem uninit_raises_gen s o : uses_uninit s o -> step fixed s o = (s, ERR).
+Proof.
+  intros H. apply step_throw. destruct o; cbn [uses_uninit] in H; try contradiction; cbn [frontend].
+  - rewrite H. reflexivity.
+  - rewrite H. reflexivity.
+  - rewrite H. reflexivity.
+  - rewrite H. reflexivity.
+  - rewrite H. reflexivity.
+  - destruct H as [H | H]; rewrite H; [destruct (geth (hs s) b); reflexivity |].
+    destruct (geth (hs s) a); reflexivity.
+  - destruct H as [H | H]; rewrite H; [destruct (geth (hs s) b); reflexivity |].
+    destruct (geth (hs s) a); reflexivity.
+Qed.
